@@ -253,3 +253,63 @@ with abs_block (k : block) : aitem :=
 
 Definition abs (s : state) : astate :=
   mkAState (f_pre s) (abs_body (root s)) (f_post s) (map abs_block (shelf s)).
+
+(* ---- executable well-formedness check ------------------------------------------------------
+   The boolean counterpart of TreeProofs.WF (proved sound there: wf_state_b s =
+   true -> WF s).  The correspondence checker evaluates it on every initial tree
+   dumped from the Go heap, so the hypothesis of the history theorems is checked
+   on what the real parser / API actually build. *)
+Definition is_nil {A} (l : list A) : bool := match l with [] => true | _ => false end.
+Fixpoint nodupb (l : list Z) : bool :=
+  match l with [] => true | x :: r => negb (mem x r) && nodupb r end.
+Fixpoint nodup_keysb (l : list (list Z)) : bool :=
+  match l with [] => true | x :: r => negb (existsb (zlist_eqb x) r) && nodup_keysb r end.
+Definition nil_or_mem (h : Z) (l : list Z) : bool := (h =? 0) || mem h l.
+
+Definition is_item_b (n : Z * bitem) : bool := match snd n with ITokens _ => false | _ => true end.
+Definition is_label_node_b (n : Z * leaf) : bool :=
+  match snd n with LIdent _ | LQuoted _ => true | _ => false end.
+Definition attr_key_b (a : attr) : list Z := match attr_name a with Ok t => bytes t | _ => [] end.
+Definition keys_b (ch : list (Z * bitem)) : list (list Z) :=
+  flat_map (fun n => match snd n with IAttr a => [attr_key_b a] | _ => [] end) ch.
+
+Definition attr_wfb (a : attr) : bool :=
+  match split_first is_lident (a_ch a) with
+  | Some (pre, (iN, LIdent _), rest) =>
+      match split_first is_lexpr rest with
+      | Some (mid, (iE, LExpr _), post) =>
+          negb (is_nil pre) && negb (is_nil post) && nodupb (ids (a_ch a))
+          && (a_name a =? iN) && (a_expr a =? iE)
+          && mem (a_lead a) (ids pre) && mem (a_line a) (ids post)
+      | _ => false
+      end
+  | _ => false
+  end.
+
+Definition labels_wfb (l : labels) : bool :=
+  nodupb (ids (l_ch l)) && zlist_eqb (l_items l) (ids (filter is_label_node_b (l_ch l))).
+
+Fixpoint body_wfb (b : body) : bool :=
+  match b with
+  | mkBody ch items limbo =>
+      is_nil limbo && nodupb (ids ch) && zlist_eqb items (ids (filter is_item_b ch))
+      && nodup_keysb (keys_b ch)
+      && (fix go (l : list (Z * bitem)) : bool :=
+            match l with [] => true | n :: r => item_wfb (snd n) && go r end) ch
+  end
+with item_wfb (it : bitem) : bool :=
+  match it with ITokens _ => true | IAttr a => attr_wfb a | IBlock k => block_wfb k end
+with block_wfb (k : block) : bool :=
+  match k with
+  | mkBlock pre bid bd post h1 h2 h3 h4 h5 h6 lb =>
+      match split_first is_kident pre with
+      | Some (lead, (iT, KLeaf (LIdent _)), (iL, KLabels l) :: mid) =>
+          negb (is_nil lead) && nodupb (ids pre ++ bid :: ids post) && labels_wfb l
+          && (h2 =? iT) && (h3 =? iL) && (h5 =? bid) && is_nil lb
+          && mem h1 (ids lead) && nil_or_mem h4 (ids mid) && nil_or_mem h6 (ids post)
+          && body_wfb bd
+      | _ => false
+      end
+  end.
+
+Definition wf_state_b (s : state) : bool := body_wfb (root s) && forallb block_wfb (shelf s).
